@@ -410,8 +410,8 @@ package dawn
 //@   ensures  !holds(m.m)
 //@   ensures  published: m.loaded && m.data == data && m.err == err
 //@   ensures  returns-its-arguments: result.0 == data && result.1 == err
-//@   ensures  wakes-the-waiters: n_wake == old(n_wake) + 1
-//@   modifies m.data, m.err, announced, n_wake
+//@   ensures  wakes-the-waiters: wakes[slot(m.m)] == old(wakes)[slot(m.m)] + 1
+//@   modifies m.data, m.err, announced, wakes
 
 // wait returns only when the module is loaded (with its published result), or with a cycle error.
 //@ func (*dawn.module).wait
@@ -441,7 +441,7 @@ package dawn
 //@   requires m != nil && proj != nil && m.label != nil && proj.modules != nil
 //@   requires no-locks: !holds(proj.m) && (forall x: *dawn.module :: !holds(x.m))
 //@   callsite loadModule: assert key-names-its-file: $2 != nil && $2.Name != ""
-//@   modifies heap, n_modload, announced, n_wake
+//@   modifies heap, n_modload, announced, wakes
 
 // load announces the execution (the ghost counter n_modload counts ModuleLoading events) and, on
 // EVERY return - also when the module's environment cannot be set up - has published the module as
@@ -462,14 +462,14 @@ package dawn
 //@   requires not-holding: forall x: *dawn.module :: !holds(x.m)
 //@   ensures n_modload == old(n_modload) + 1
 //@   ensures published-on-every-return: m.loaded
-//@   modifies heap, n_modload, announced, n_wake
+//@   modifies heap, n_modload, announced, wakes
 //@ func (*dawn.Project).loadModule
 //@   uses (*label.Label).String variant function-of-fields
 //@   requires proj != nil && label != nil && proj.modules != nil
 //@   requires no-locks: !holds(proj.m) && (forall x: *dawn.module :: !holds(x.m))
 //@   callsite load: assert only-the-creator-loads: !old(allocated($0))
 //@   ensures at-most-one-load: n_modload <= old(n_modload) + 1
-//@   modifies heap, n_modload, announced, n_wake
+//@   modifies heap, n_modload, announced, wakes
 
 //@ func dawn.newLineWriter
 //@   ensures result != nil && !old(allocated(result))
